@@ -397,3 +397,75 @@ func gappedTwin(rng *rand.Rand, out *Out) {
 		out.Count(fmt.Sprintf("twin:cursor:%s=%d", contractName[c], min64(lastEpochOf(h.nd.Ch.GetFrontierAccountStore(c).Storage()), 12)))
 	}
 }
+
+// ---- Updates of all four reward contracts on a real node that issue several epochs at once, around the first epoch
+// of a reward tick (epoch 30, 60, ...: the emission per epoch changes there). The network stalls (no momentum for many
+// epochs: the producers' slots stay empty) and nobody calls Update, so that the cursors stand `j` epochs in front of the
+// boundary when `k` epochs come due at once; the pillar / stake / sentinel contract cross the boundary in one batch,
+// the liquidity contract in batches of at most MaxEpochsPerUpdate/2. The per-update oracles of observeReceive compare
+// the credits of EVERY epoch of a batch with the emission of that epoch (and with the model), the follower re-executes
+// everything.
+func (h *nodeHist) stallUntil(ts int64) {
+	skip := (ts-h.nowTs())/10 - 1
+	if skip > 0 {
+		mock.VerifInsertMomentumSkipping(h.nd.Z, int(skip))
+	} else {
+		h.nd.Momentum()
+	}
+	h.observe()
+}
+
+func (h *nodeHist) updateAll(rounds int) {
+	for r := 0; r < rounds; r++ {
+		for _, c := range rewardContracts {
+			h.send(actors[h.rng.Intn(len(actors))], c, types.ZnnTokenStandard, nil, updateData)
+		}
+		for i := 0; i < int(constants.UpdateMinNumMomentums)+1; i++ {
+			h.nd.Momentum()
+			h.observe()
+		}
+	}
+}
+
+func boundaryBatches(rng *rand.Rand, out *Out, boundary int64) {
+	defer func(v uint64) { constants.UpdateMinNumMomentums = v }(constants.UpdateMinNumMomentums)
+	constants.UpdateMinNumMomentums = 1
+	h := newHist(rng, out, 600, false, true)
+	defer h.nd.Stop()
+	k := pick64(rng, 2, 3, 7, int64(constants.MaxEpochsPerUpdate/2))
+	first := boundary + int64(rng.Intn(5)) - 2 - rng.Int63n(k)
+	out.Count(fmt.Sprintf("node:boundary-batches:boundary=%d:%s", boundary, batchTag(first, k, boundary)))
+	// something to reward in every contract: a stake, a sentinel, delegations, a registered pillar now and then
+	for i := 0; i < 40; i++ {
+		h.act()
+		h.momentum()
+	}
+	due := func(e int64) int64 { return h.genesis + h.dur*(e+1) + constants.RewardTimeLimit }
+	// the cursors are brought to first-1 (the liquidity contract needs one Update per MaxEpochsPerUpdate/2 epochs)
+	// (the rounds of Updates take two momentums each and have to be over before the next epoch comes due)
+	rounds := int(first)/(constants.MaxEpochsPerUpdate/2) + 1
+	slack := (h.dur-int64(rounds)*20)/10 - 6
+	if slack < 1 {
+		slack = 1
+	}
+	h.stallUntil(due(first-1) + 10*rng.Int63n(slack))
+	h.updateAll(rounds)
+	for _, c := range rewardContracts {
+		l := lastEpochOf(confirmedStore(h.nd.Ch, c).Storage())
+		out.Oracle(l == first-1, "harness-boundary-cursor-not-in-place", M{"contract": contractName[c], "cursor": I64(l), "want": I64(first - 1)})
+	}
+	// k epochs come due at once
+	h.stallUntil(due(first+k-1) + int64(10*rng.Intn(30)))
+	h.updateAll(1)
+	// and a few more, one or two at a time, with some life in between
+	for i := 0; i < 2; i++ {
+		for j := 0; j < 50+rng.Intn(40); j++ {
+			if rng.Intn(6) == 0 {
+				h.act()
+			}
+			h.momentum()
+		}
+		h.updateAll(1)
+	}
+	h.finish()
+}
